@@ -260,6 +260,10 @@ def run(tier, rep):
         if got != table(n):
             doc_mismatch.append(n)
     cases = make_cases(tier, seed)
+    # nearly real expansion points (imaginary part 1e-10 / 3e-11: far above the rounding level of the coefficients, far below anything
+    # a clean-up of "rounding noise" may assume): the genuine imaginary parts of the coefficients must survive.  Default configuration,
+    # n = 2, 3 (below the order-m/2 coefficient); appended AFTER the seeded case set so that the listed inputs of the known findings stay the same
+    cases = cases + [(fi, z0, n, None, None, None, True) for fi in range(len(fams())) for z0 in (0.5 + 1e-10j, -0.25 + 3e-11j, 0.75 - 1e-10j) for n in (2, 3)]
     outs = vlib.pool_map(run_case, cases, chunksize=2)
     F = fams()
     traces, owners = [], []
